@@ -76,7 +76,8 @@ type Config struct {
 	Trace         bool
 	UnwindViolation bool // exceeding the call-depth bound is reported as a violation (label unbounded-recursion)
 	Preemptions   int // 0: Options.Preemptions
-	Delays        int // >0: delay-bounded scheduling with this bound instead of preemption bounding
+	Delays        int  // delay bound when DelayBounded
+	DelayBounded  bool // delay-bounded scheduling instead of preemption bounding
 	ReplayInputs  []ReplayVal // non-nil: concrete re-execution of one input vector (no symbolic inputs)
 }
 
@@ -100,6 +101,7 @@ type Result struct {
 	Stubs         map[string]int // replaced functions -> calls
 	Sites         map[string]int // where new decisions (forks) were taken
 	Samples       []map[string]any
+	SchedLog      []string // concrete replay only: the context switches of the (single) path
 	InconclusiveNotes []string
 	MaxStepsSeen  int
 	EngineErrors  []string
@@ -472,6 +474,11 @@ func (e *Engine) runPath(fn *ssa.Function, it workItem, solver *Solver) {
 	}()
 	if r.sched != nil {
 		r.sched.killAll()
+		if e.cfg.ReplayInputs != nil {
+			e.mu.Lock()
+			e.res.SchedLog = r.sched.log
+			e.mu.Unlock()
+		}
 	}
 	// an escaping panic of the target is an assertion failure of its own
 	if (outcome == "target-panic" || outcome == "target-runtime-panic") && len(r.rtPanics) > 0 {
